@@ -69,9 +69,14 @@ func genCircuitStrategy(t *rapid.T, depth int, values []*big.Int, deletion bool)
 	case 0, 1:
 		s.NB = "honest"
 	case 2:
+		// an alternative decomposition v + k*r wherever it fits the requested width: 256-bit packings, a full-width
+		// (254-bit) decomposition, or any width (then usually restricted to one value below)
 		s.NB = "plus_kr"
 		s.K = rapid.IntRange(1, 5).Draw(t, "st_k")
-		s.N = 256
+		s.N = pick(t, "st_krn", 256, 256, 254, 0)
+		if s.N != 256 {
+			s.K = 1
+		}
 	case 3:
 		s.NB = "flip"
 		s.J = rapid.IntRange(0, 33).Draw(t, "st_j")
